@@ -69,6 +69,7 @@ fn main() {
             // deep recursion (implicit coercion at depth >= 3) is rare in the grammar-generated stream
             c22::run_deep_recursion(args.seed, (args.n / 10).max(20), &mut o);
             c22::run_nested_imports(args.seed, (args.n / 10).max(20), &mut o);
+            c22::run_fold_then_recurse(args.seed, (args.n / 10).max(20), &mut o);
             o.finish();
         }
         "c06" => {
@@ -82,6 +83,7 @@ fn main() {
             c01::run(args.seed, args.n, &mut o, false, 15, true);
             c22::run_deep_recursion(args.seed, (args.n / 10).max(20), &mut o);
             c22::run_nested_imports(args.seed, (args.n / 10).max(20), &mut o);
+            c22::run_fold_then_recurse(args.seed, (args.n / 10).max(20), &mut o);
             o.finish();
         }
         "c22" => {
